@@ -43,6 +43,7 @@ structure Inv (c : Cfg) (s : State) : Prop where
   hi_fresh : ∀ p, s.hi ≤ p → s.life p = .fresh
   pre_ok : ∀ p u, s.pre p u = true → ∃ b, s.cs u = some b ∧ b ≤ s.removedAt p
   no_uaf : s.uaf = false
+  e_kind : ∀ t, Owns (s.pc t) → s.isDummy (s.node t) = s.inDeq t
 
 theorem inv_init (c : Cfg) : Inv c init := by
   constructor <;> simp [init, Seg, HoldsTl, HoldsHd, Owns, Held, abs] <;> intro p <;> (first | omega | (split <;> simp_all))
